@@ -70,10 +70,14 @@ Section E2E.
   Hypothesis codec_silent_prefix :
     forall e p s, enc e = p ++ s -> s <> [] -> snd (feed d0 p) = [].
 
+  (** what the codec emits is a well-formed Engine.IO message packet (C11's precondition) *)
+  Variable frame_ok : frame -> Prop.
+  Hypothesis enc_frames_ok : forall e, Forall frame_ok (enc e).
+
   Variable wunit : Type.               (* what one transport send puts on the wire *)
   Variable pack : list frame -> wunit. (* C11: payload / message framing of a batch *)
   Variable unpack : wunit -> list frame.
-  Hypothesis framing_roundtrip : forall b, unpack (pack b) = b.
+  Hypothesis framing_roundtrip : forall b, Forall frame_ok b -> unpack (pack b) = b.
 
   Variable accepts : wunit -> bool.    (* C13: the receiving transport's size decision *)
 
@@ -212,9 +216,23 @@ Section E2E.
     induction 1 as [|u us Hu _ IH]; simpl; [reflexivity|]. now rewrite Hu, IH.
   Qed.
 
-  Lemma unpack_pack_all : forall bs, flat_map unpack (map pack bs) = concat bs.
+  Lemma unpack_pack_all : forall bs,
+    Forall (Forall frame_ok) bs -> flat_map unpack (map pack bs) = concat bs.
   Proof.
-    induction bs as [|b bs IH]; simpl; [reflexivity|]. now rewrite framing_roundtrip, IH.
+    induction 1 as [|b bs Hb _ IH]; simpl; [reflexivity|]. now rewrite framing_roundtrip, IH.
+  Qed.
+
+  Lemma Forall_concat_inv : forall {X} (P : X -> Prop) (bs : list (list X)),
+    Forall P (concat bs) -> Forall (Forall P) bs.
+  Proof.
+    induction bs as [|b bs IH]; intros H; [constructor|].
+    simpl in H. apply Forall_app in H as [H1 H2]. constructor; auto.
+  Qed.
+
+  Lemma wire_frames_ok : forall c tr, Forall frame_ok (wire c tr).
+  Proof.
+    intros c tr. unfold wire. induction tr as [|p tr IH]; simpl; [constructor|].
+    apply Forall_app. split; [apply enc_frames_ok | exact IH].
   Qed.
 
   Lemma flat_map_enc_map : forall {X} (f : X -> event) l,
@@ -229,8 +247,9 @@ Section E2E.
   Proof.
     intros c tr batches Hw Hl. unfold parsed.
     rewrite link_fifo, accept_units_all.
-    - rewrite recv_units_flat, unpack_pack_all, Hw. unfold wire.
-      rewrite flat_map_enc_map, feed_packets. reflexivity.
+    - rewrite recv_units_flat, unpack_pack_all, Hw.
+      + unfold wire. rewrite flat_map_enc_map, feed_packets. reflexivity.
+      + apply Forall_concat_inv. rewrite Hw. apply wire_frames_ok.
     - unfold within_limits in Hl. now apply Forall_map.
   Qed.
 
